@@ -237,6 +237,30 @@ def flag(ctx):
                       % (fi.name, ', '.join(sorted(writes)[:5]))))
     if n < 10:
         raise AnalysisError('anchor-vanished: public methods writing state read by the pass (%d)' % n)
+    # the marker functions themselves: every normal exit has run the pass or set the stale flag
+    for mname in ('_finish_add', '_finish_remove'):
+        mf = pc.methods.get(mname)
+        if mf is None:
+            raise AnalysisError('anchor-vanished: PyCdlib.%s' % mname)
+        g = ctx.cfg(mf)
+
+        def tr(node, st, lab):
+            if lab in ('exc', 'callexc'):
+                return st
+            for e in cfgmod.node_exprs(node):
+                for sub in ast.walk(e):
+                    if isinstance(sub, ast.Call) and isinstance(sub.func, ast.Attribute) and sub.func.attr == '_reshuffle_extents':
+                        return True
+            stn = node.stmt
+            if node.kind == 'stmt' and isinstance(stn, ast.Assign) and any(norm(t) == 'self._needs_reshuffle' for t in stn.targets) and \
+                    isinstance(stn.value, ast.Constant) and stn.value.value is True:
+                return True
+            return st
+        IN = g.forward(False, tr, lambda a, b: a and b)
+        ok = bool(IN.get(g.exit.id))
+        obs.append(Ob('SA-RESHUFFLE.flag', 'pycdlib.PyCdlib.%s|marks on every exit' % mname, ok, ctx.loc(mf, mf.node),
+                      '' if ok else '%s is what every edit relies on to invalidate the derived metadata, but some normal exit neither runs the recomputation pass nor sets '
+                      '_needs_reshuffle: an edit that takes that exit is mastered with the layout computed before it' % mname))
     return obs
 
 
